@@ -53,3 +53,17 @@ func TestC09NamedTypes(t *testing.T) {
 		sec.Case(len(kinds) >= 2, strings.Join(names, ","), fmt.Sprintf("types=%d", len(kinds)))
 	})
 }
+
+// TestC09TagValues: tags whose keys are related as strings; every tag applies to exactly its own key.
+func TestC09TagValues(t *testing.T) {
+	sec := stats.Sec("tag_values", "rapid: a Taggable struct whose pointer tags name 3-5 keys of one map that are related as strings (one a prefix of another: user / username / user_id, k1 / k10 / k100; equal up to case or surrounding white space; dotted), in drawn order, with drawn classifications and operations; public-tagged values include the empty string, a blank, []string, []interface{} and nested maps; oracle = every non-public value is forwarded in the form its own tag dictates (redacted marker, encrypted:, hmac-sha256:) and never readable, the untagged string is redacted; non-trivial = >= 2 related tagged keys; distinct = case descriptor")
+	rapid.Check(t, func(t *rapid.T) {
+		fs, desc, nt := encrun.TagValueCase(t)
+		for _, fd := range fs {
+			if fd.Prop == "C09" && !stats.Known(fd.Sig) {
+				t.Fatalf("VIOLATION C09: %s [sig %s]\ncase: %s", fd.Msg, fd.Sig, desc)
+			}
+		}
+		sec.Case(nt, desc)
+	})
+}
